@@ -198,9 +198,51 @@ def litre_first_nodes(node, tried=True, out=None):
     return out
 
 
+def suffix_spelling(sp):
+    """'wt%'-style spelling (letters then '%'); '%wt'-style and the bare '%' are not."""
+    return len(sp) > 1 and sp.endswith('%')
+
+
+def count_after_percent_parts(node):
+    """Percentage parts written with a bare '%' or a '%wt'-style spelling whose compound opens
+    with a count ('15% 2Co'): the rendering pattern of the candidate defect found by C11
+    (the grammar allows optional white space only after the 'wt%'-style spellings, and a
+    compound's leading count must not follow white space)."""
+    out = []
+    for n in walk(node):
+        if n['t'] == 'm' and n['mode'] in ('wt', 'vol'):
+            for p in n['parts'][:-1]:
+                sub = p['node']
+                if sub['t'] == 'c' and sub['text'][0] in '0123456789.' and not suffix_spelling(p['unit']):
+                    out.append(p)
+    return out
+
+
+def percent_sibling(node):
+    """Deep copy with every such part written with the 'wt%' / 'vol%' spelling."""
+    import copy
+    new = copy.deepcopy(node)
+    for n in walk(new):
+        if n['t'] == 'm' and n['mode'] in ('wt', 'vol'):
+            for p in n['parts'][:-1]:
+                sub = p['node']
+                if sub['t'] == 'c' and sub['text'][0] in '0123456789.' and not suffix_spelling(p['unit']):
+                    p['unit'] = 'wt%' if n['mode'] == 'wt' else 'vol%'
+    return new
+
+
 def has_layer_repeat(node):
     return any(n['t'] == 'm' and n['mode'] == 'layer' and any('rep' in p for p in n['parts'])
                for n in walk(node))
+
+
+def case_features(case):
+    """Rendering patterns of listed candidate defects present in a case (structural scan)."""
+    tree = case['tree']
+    layer_repeat = has_layer_repeat(tree) or (case.get('wrap') and tree['mode'] == 'layer')   # top-level '( layers )' is a repeat group
+    return sorted((['litre-first'] if litre_first_nodes(tree) else [])
+                  + (['layer-repeat'] if layer_repeat else [])
+                  + (['count-after-percent'] if count_after_percent_parts(tree) else []))
 
 
 def has_repeat(node):
@@ -462,6 +504,11 @@ class MixtureGen(object):
                 else:
                     sp = spell if i == 0 else rng.choice([spell, '%', '%', rng.choice(
                         WT_SPELLINGS if mode == 'wt' else VOL_SPELLINGS)])
+                    if node['t'] == 'c' and node['text'][0] in '0123456789.' and not suffix_spelling(sp) \
+                            and not opts.get('count_after_percent'):
+                        # '15% 2Co' is a known rejected rendering: only produced when asked for
+                        sp = rng.choice([x for x in (WT_SPELLINGS if mode == 'wt' else VOL_SPELLINGS)
+                                         if suffix_spelling(x)])
                     parts.append({'q': texts[i], 'unit': sp, 'gap': rng.choice(['', '', ' ']), 'node': node})
         else:
             zero_at = rng.randrange(n) if (n > 1 and rng.random() < 0.12) else None
@@ -497,8 +544,8 @@ class MixtureGen(object):
                 'pad': rng.choice(['', '', ' ']), 'tag': None}
 
     def case(self, feature=None, mode=None):
-        """One case.  feature: None | 'litre-first' | 'layer-repeat' (rendering patterns that hit
-        candidate defects D27 / D9; never produced unless asked for)."""
+        """One case.  feature: None | 'litre-first' | 'layer-repeat' | 'count-after-percent'
+        (rendering patterns that hit candidate defects; never produced unless asked for)."""
         rng = self.rng
         opts = {'p_nested': rng.choice([0.0, 0.15, 0.3]), 'p_repeat': rng.choice([0.0, 0.15, 0.3])}
         if feature == 'litre-first':
@@ -508,15 +555,20 @@ class MixtureGen(object):
             opts['layer_repeat'] = True
             opts['p_repeat'] = 0.5
             mode = 'layer'
+        elif feature == 'count-after-percent':
+            opts['count_after_percent'] = True
+            mode = rng.choice(['wt', 'vol'])
         mode = mode or rng.choice(['wt', 'vol', 'mass', 'layer'])
         tree = self.mix(mode, 0, False, opts, tried=True)
         case = {'tree': tree, 'wrap': False}
-        if rng.random() < 0.15:
+        if rng.random() < 0.15 and (mode != 'layer' or feature == 'layer-repeat'):
+            # a parenthesised mixture with a density tag is a `part` of the documented grammar; at
+            # top level the library accepts it for the percentage forms ('(10wt% Fe // Ni)@5').
+            # For the quantity forms the top-level '( ... )' is a repeat group and takes no tag.
             case['wrap'] = True
-            if rng.random() < 0.7:
+            if mode in ('wt', 'vol') and rng.random() < 0.7:
                 tree['tag'] = self.density_tag()
         case['text'] = render_top(case)
-        case['features'] = sorted((['litre-first'] if litre_first_nodes(tree) else [])
-                                  + (['layer-repeat'] if has_layer_repeat(tree) else []))
+        case['features'] = case_features(case)
         case['shape'] = shape_of(tree) + ('/wrap' if case['wrap'] else '')
         return case
